@@ -134,11 +134,17 @@ func c15RunOpt(run *ev.Run, u *uni.U, origins []string, wans, dans []string, war
 	if len(slashed) > 0 && slashed[0] {
 		wk = u.W4
 	}
+	// Second option: the LOG keys carry the witness key's NAME (own key
+	// material) - a signature by such a log key is not a witness signature.
+	namesake := len(slashed) > 1 && slashed[1]
 	var logs []*c15Log
 	for i, o := range origins {
 		key := u.K1
 		if i%2 == 1 {
 			key = u.K2
+		}
+		if namesake {
+			key = uni.NewKey(wk.CosigVerif.Name(), ev.Seed()+int64(1000+i%2))
 		}
 		l := wh.LogCfg{Origin: o, Key: key}
 		cl, _ := config.NewLog(o, key.VKey, "http://log.example/")
@@ -241,7 +247,7 @@ func c15RunOpt(run *ev.Run, u *uni.U, origins []string, wans, dans []string, war
 	}
 	derr := d.DistributeOnce(context.Background())
 
-	rep := map[string]any{"kind": "distribute", "origins": origins, "witness_answers": wans, "distributor_answers": dans, "after_a_valid_round": warm, "witness_name_with_slash": wk.Name == u.W4.Name}
+	rep := map[string]any{"kind": "distribute", "origins": origins, "witness_answers": wans, "distributor_answers": dans, "after_a_valid_round": warm, "witness_name_with_slash": wk.Name == u.W4.Name, "log_keys_named_like_the_witness": namesake}
 	desc := func(s string) string {
 		w := ""
 		if warm {
@@ -410,7 +416,9 @@ func c15(tier string) int {
 					if a.n <= 2 {
 						// ... and with a witness key whose name contains '/'.
 						c15RunOpt(run, u, origins[:a.n], a.wans, a.dans, false, true)
-						k++
+						// ... and with log keys that carry the witness key's name.
+						c15RunOpt(run, u, origins[:a.n], a.wans, a.dans, false, false, true)
+						k += 2
 						run.Distinct(fmt.Sprint("warm", a.n, a.wans, a.dans))
 					}
 					mu.Lock()
@@ -491,7 +499,7 @@ func c15(tier string) int {
 	run.Set("exhaustive", true)
 	run.Set("witness_answer_menu", c15WitnessAnswers)
 	run.Set("distributor_answer_menu", c15DistAnswers)
-	run.Set("rule", fmt.Sprintf("the real Distributor.DistributeOnce with a scripted witness and an in-process stub distributor (RoundTripper): ALL assignments of (witness answer x distributor answer) for 1 and 2 logs, each also as the second polling round of a Distributor whose first round was entirely valid; for 3..6 logs all assignments with at most %d logs (1-2 for 5-6 logs) deviating from (valid, 200) at every position. For 1 and 2 logs every assignment also with a witness key whose name contains a slash (the path names it in one escaped segment). Oracle: exactly one PUT per log whose witness answer is valid, at /distributor/v0/logs/<id>/byWitness/<witness key name>/checkpoint, body byte-identical to what the witness reported; no PUT for any other log; every log attempted regardless of earlier failures; error iff some log failed, with the right count; then one more round on the same Distributor in which everything is valid: every log pushed exactly once, exact bytes, no error. The two unusual valid shapes (70 KiB of extension lines; unknown signature lines around the witness line) are combined with distributor answers 200, 500 and body-left-unread only. distinct_nontrivial = distinct assignments", k))
+	run.Set("rule", fmt.Sprintf("the real Distributor.DistributeOnce with a scripted witness and an in-process stub distributor (RoundTripper): ALL assignments of (witness answer x distributor answer) for 1 and 2 logs, each also as the second polling round of a Distributor whose first round was entirely valid; for 3..6 logs all assignments with at most %d logs (1-2 for 5-6 logs) deviating from (valid, 200) at every position. For 1 and 2 logs every assignment also with a witness key whose name contains a slash (the path names it in one escaped segment), and with log keys that carry the witness key's NAME. Oracle: exactly one PUT per log whose witness answer is valid, at /distributor/v0/logs/<id>/byWitness/<witness key name>/checkpoint, body byte-identical to what the witness reported; no PUT for any other log; every log attempted regardless of earlier failures; error iff some log failed, with the right count; then one more round on the same Distributor in which everything is valid: every log pushed exactly once, exact bytes, no error. The two unusual valid shapes (70 KiB of extension lines; unknown signature lines around the witness line) are combined with distributor answers 200, 500 and body-left-unread only. distinct_nontrivial = distinct assignments", k))
 	run.Assumption("a checkpoint carrying a second, foreign witness signature is outside the property's claim and is not judged; a connection error is modelled as failing before the request body is read")
 	return run.Finish()
 }
